@@ -380,6 +380,8 @@ impl WorkerTree {
             });
 
             for node_index in remove_nodes {
+                self.restart_work(node_index);
+
                 if let Some(work_item) = self.graph.remove_node(node_index) {
                     if !work_item.data.is_in_place() {
                         self.remove_files
@@ -444,7 +446,7 @@ impl WorkerTree {
             log::debug!("restart work for {}", item.source().display());
             for path in item.external_file_dependencies.iter() {
                 if let Some(container) = self.external_dependencies.get_mut(path) {
-                    container.remove(&node_index);
+                    container.remove(&dependent_node);
                 }
             }
             item.reset();
